@@ -30,7 +30,15 @@ def make_patch(p: Dict[str, Any], serial: int) -> Dict[str, Any]:
         return {'result': p['value']}
     if k == 'error':
         return {'error': pjrpc.exc.JsonRpcError(code=p['code'], message=p['message'], data=p.get('data', UNSET) if 'data' in p else UNSET)}
+    if k == 'callback-raises':
+        def boom(*a: Any, _s: int = serial, **kw: Any) -> Any:
+            raise CallbackBoom(_s)
+        return {'callback': boom}
     return {'callback': (lambda *a, _s=serial, **kw: {'cb': _s, 'args': list(a), 'kwargs': kw})}
+
+
+class CallbackBoom(Exception):
+    """raised by a user callback patch"""
 
 
 class C20(Check):
@@ -40,9 +48,9 @@ class C20(Check):
     thorough_examples = 10000
     chunk = 600
     rule = (
-        "cases: operation/call histories of up to 9 steps over 2 endpoints x 3 methods (one never patched): add(result | error | callback, "
+        "cases: operation/call histories of up to 9 steps over 2 endpoints x 3 methods (one never patched): add(result | error | callback | callback that raises, "
         "once on/off), replace(existing index), remove(endpoint, method) / remove(endpoint) (existing only), reset, call (positional / named / "
-        "absent params, ids incl. 0 and '' via hand-built request texts), batch call (1..3 elements incl. unpatched methods), plus structured scenarios (2..3 patches on one pair, a replace at a chosen index, then a full rotation of calls); passthrough "
+        "absent params, ids incl. 0 and '' via hand-built request texts), batch call (1..3 elements incl. unpatched methods), notifications to endpoints without patches, plus structured scenarios (2..3 patches on one pair, a replace at a chosen index, then a full rotation of calls); passthrough "
         "on/off; sync and async targets (harness client classes patched through PjRpcMocker(target=...); the shipped PjRpcRequestsMocker "
         "shortcut for a share of the sync runs). Oracle: a model endpoint -> (method -> list of patches) + recorded calls: a call is answered "
         "by the head patch, which rotates to the tail unless `once`; exhausted lists disappear; the reply carries the request id and the "
@@ -52,13 +60,14 @@ class C20(Check):
         "patches on one pair with a `once` among them, or a replace / remove between calls, or a batch; distinct = distinct spec."
     )
     assumptions = [
-        "notifications are outside the statement ('a call ... is answered') and not generated",
+        "notifications are judged only on endpoints without patches (passthrough with the same arguments / refusal); how a patched endpoint answers a notification is outside the statement",
+        "a user callback that raises propagates out of the patched transport; the call is still recorded and the patch rotation consumed",
         "replace / remove are only issued for existing patches / indices",
     ]
     trusted_base = ['deque model in checks/c20.py']
     required_classes = ['op/add', 'op/replace', 'op/remove-method', 'op/remove-endpoint', 'op/reset', 'op/call', 'op/batch', 'patch/result',
                         'patch/error', 'patch/callback', 'once', 'round-robin>=2', 'passthrough/on', 'passthrough/off', 'target/sync',
-                        'target/async', 'target/requests', 'unpatched-method', 'unpatched-endpoint', 'id/0']
+                        'target/async', 'target/requests', 'unpatched-method', 'unpatched-endpoint', 'id/0', 'callback-raised', 'op/notify-unpatched-endpoint']
 
     def strategy(self, tier: str):
         s_ep = st.integers(0, 1)
@@ -67,7 +76,7 @@ class C20(Check):
             st.builds(lambda v: {'kind': 'result', 'value': v}, st.one_of(st.sampled_from([None, 0, False, 'r', [1], {'a': 1}]), jg.cheap_value())),
             st.builds(lambda c, m, d: {'kind': 'error', 'code': c, 'message': m, **d}, st.sampled_from([1, 0, -32000, 2001]), st.sampled_from(['m', '']),
                       st.sampled_from([{}, {'data': None}, {'data': {'x': 1}}])),
-            st.just({'kind': 'callback'}),
+            st.just({'kind': 'callback'}), st.just({'kind': 'callback'}), st.just({'kind': 'callback-raises'}),
         )
         s_params = st.sampled_from(PARAMS)
         s_id = st.sampled_from(IDS)
@@ -80,6 +89,7 @@ class C20(Check):
             st.builds(lambda e, m, p, i: ['call', e, m, p, i], s_ep, st.sampled_from([0, 0, 0, 1, 2]), s_params, s_id),
             st.builds(lambda e, m, p, i: ['call', e, m, p, i], s_ep, st.sampled_from([0, 0, 0, 1, 2]), s_params, s_id),
             st.builds(lambda e, m, p, i: ['call', e, m, p, i], s_ep, st.sampled_from([0, 0, 0, 1, 2]), s_params, s_id),
+            st.builds(lambda e, m, p: ['notify', e, m, p], s_ep, st.sampled_from([0, 1, 2]), s_params),
             st.builds(lambda e, els: ['batch', e, [list(x) for x in els]], s_ep,
                       st.lists(st.tuples(st.sampled_from([0, 0, 1, 2]), s_params), min_size=1, max_size=3)),
         )
@@ -156,6 +166,8 @@ class C20(Check):
                 if 'data' in p:
                     e['data'] = p['data']
                 return {'jsonrpc': '2.0', 'id': rid, 'error': e}
+            if p['kind'] == 'callback-raises':
+                return {'raises': patch['serial']}
             return {'jsonrpc': '2.0', 'id': rid, 'result': {'cb': patch['serial'], 'args': args, 'kwargs': kwargs}}
 
         def cmp_response(exp: Dict[str, Any], got: Any, what: str) -> None:
@@ -228,6 +240,33 @@ class C20(Check):
                     model.clear()
                     record.clear()
                     classes.add('op/reset')
+                elif k == 'notify':
+                    # notifications are only judged on endpoints WITHOUT patches (passthrough / refusal as configured);
+                    # how a patched endpoint answers a notification is outside the statement
+                    ci = op[1]
+                    ep = ENDPOINTS[ci]
+                    if ep in model or target == 'requests':
+                        continue
+                    d_: Dict[str, Any] = {'jsonrpc': '2.0', 'method': METHODS[op[2]]}
+                    if op[3] is not None:
+                        d_['params'] = op[3]
+                    text = json.dumps(d_)
+                    classes.add('op/notify-unpatched-endpoint')
+                    evaluations += 1
+                    n_real = len(mocktargets.REAL_CALLS)
+                    try:
+                        r_ = clients[ci]._request(text, True)
+                        if is_async:
+                            r_ = hm.run_coro(r_)
+                        exc = None
+                    except BaseException as e:  # noqa
+                        r_, exc = None, e
+                    if spec['passthrough']:
+                        new = mocktargets.REAL_CALLS[n_real:]
+                        if exc is not None or new != [(ep, text, True)]:
+                            discs.append(Disc("C20/passthrough-notification", f"real transport calls {new} exc {exc!r} for notification {text!r} | {where}"))
+                    elif not isinstance(exc, ConnectionRefusedError):
+                        discs.append(Disc("C20/unpatched-endpoint-not-refused", f"got {r_!r} / {exc!r} for notification {text!r} | {where}"))
                 elif k in ('call', 'batch'):
                     seen_call = True
                     ci = op[1]
@@ -260,7 +299,20 @@ class C20(Check):
                         elif not isinstance(exc, ConnectionRefusedError):
                             discs.append(Disc("C20/unpatched-endpoint-not-refused", f"got {got_text!r} / {exc!r} for {text!r} | {where}"))
                         continue
-                    expected = [expect_element(ep, m, p, rid) for m, p, rid in els]
+                    expected = []
+                    raising = None
+                    for m, p, rid in els:
+                        e_ = expect_element(ep, m, p, rid)
+                        if 'raises' in e_:      # a user callback that raises: the exception propagates, later elements are not reached
+                            raising = e_['raises']
+                            classes.add('callback-raised')
+                            break
+                        expected.append(e_)
+                    if raising is not None:
+                        if not isinstance(exc, CallbackBoom) or exc.args != (raising,):
+                            discs.append(Disc("C20/callback-exception-not-propagated", f"got {got_text!r} / {exc!r}, expected CallbackBoom({raising}) for {text!r} | {where}"))
+                            break
+                        continue
                     if exc is not None:
                         discs.append(Disc(f"C20/call-raised/{type(exc).__name__}", f"{exc!r} for {text!r} | {where}"))
                         break
